@@ -94,6 +94,7 @@ def one_run(ctx, drv, rng):
               "num_pools": 2 if algo == "priority-pool" else rng.choice([1, 2, 4]), "cpus_per_pool": rng.choice([1, 4, 64]),
               "ram_gb_per_pool": rng.choice([8, 64, 256]), "multi_operator_containers": True if algo == "priority-pool" else rng.random() < 0.5,
               "allow_memory_overcommit": algo == "overbook", "random_seed": rng.randint(0, 10 ** 6)}
+    layer_m.FLAG_RESUME = params["random_seed"] % 3 == 0      # a third of the runs: assignments flagged as resumptions are assignments all the same
     workload = None
     kind = rng.random()
     if kind < 0.15:
@@ -245,6 +246,7 @@ def run(ctx):
     try:
         for _ in range(60 if ctx.quick() else 600):
             one_run(ctx, drv, rng)
+        layer_m.FLAG_RESUME = False
         for _ in range(40 if ctx.quick() else 400):
             uncontended(ctx, drv, rng)
         for _ in range(60 if ctx.quick() else 600):
